@@ -19,11 +19,16 @@ RULE = ("cases = (machine incl. retries, catches, fan-outs and failing branches,
 
 
 def probe(w, started):
+    from .. import monitors as M
     out = {}
     for arn in started:
         st, fwd = w.history(arn)
         st2, rev = w.history(arn, reverse=True)
-        out[arn] = {"fwd": (st, fwd), "rev": (st2, rev)}
+        # reading is not allowed to change anything: read again in both orders, and look at what the engine stores now
+        st3, fwd2 = w.history(arn)
+        st4, rev2 = w.history(arn, reverse=True)
+        st5, fwd3 = w.history(arn)
+        out[arn] = {"fwd": (st, fwd), "rev": (st2, rev), "again": [(st3, fwd2), (st4, rev2), (st5, fwd3)], "stored_after": M.engine_history(w, arn)}
     return out
 
 
@@ -74,6 +79,11 @@ def extra(case, sched, starts, res):
             fails.append(("GetExecutionHistory-differs-from-store", "%s: %d events served, %d stored" % (arn, len(fwd.get("events", [])), len(stored))))
         if rev.get("events") != list(reversed(fwd.get("events", []))):
             fails.append(("reverseOrder-not-reverse", "%s: reverse order list is not the reverse of the forward list" % arn))
+        (s3, f2), (s4, r2), (s5, f3) = pr.get("again") or [(200, fwd), (200, rev), (200, fwd)]
+        if (s3, s4, s5) != (200, 200, 200) or f2.get("events") != fwd.get("events") or f3.get("events") != fwd.get("events") or r2.get("events") != rev.get("events"):
+            fails.append(("history-read-not-repeatable", "%s: reading the history again (forward, reverse, forward) after a reverseOrder read gives other lists" % arn))
+        if pr.get("stored_after") is not None and json.loads(json.dumps(pr["stored_after"])) != json.loads(json.dumps(stored)):
+            fails.append(("history-read-changed-store", "%s: the stored history changed by being read" % arn))
     # trace differential for the primary execution
     if not standard or not starts or starts[0]["mode"] != "api":
         return fails
@@ -159,7 +169,7 @@ mon.SPECS[PID] = mon.Spec(PID, ("history", "exceptions"), RULE, [
     "the trace differential is applied to the first (API-started) execution when the reference is deterministic (no concurrent ambiguous failures, no in-band Error data, single retrier)",
     "task lifecycle events (LambdaFunctionScheduled, TaskSucceeded, ...) are checked for numbering/order only, not against a reference",
 ], nontrivial=nontrivial, extra=extra, run_kwargs={"probe": probe}, variants=lambda: __import__("hypothesis").strategies.sampled_from(
-    [{}, {}, {"logging": "ALL"}, {"logging": "ERROR"}]))
+    [{}, {}, {"logging": "ALL"}, {"logging": "ERROR"}, {"midrun_reads": 3}, {"midrun_reads": 7}]))
 
 
 def main(tier, seed, replay=None):
